@@ -134,22 +134,70 @@ func (s c11Stmt) parts() []string {
 	return p
 }
 
-var c11Keywords = map[string]bool{"SELECT": true, "DISTINCT": true, "FROM": true, "WHERE": true, "GROUP": true, "BY": true, "HAVING": true, "WITH": true, "ORDER": true, "LIMIT": true}
+var c11Keywords = map[string]bool{}
+
+func init() {
+	for _, k := range strings.Fields("SELECT DISTINCT FROM WHERE GROUP BY HAVING WITH ORDER LIMIT AS AND OR NOT JOIN LEFT INNER ON ASC DESC LIKE IS NULL " +
+		"CASE WHEN THEN ELSE END GLOBAL WINDOW TRIGGER TIMESTAMP TIMEUNIT MAXOUTOFORDERNESS ALLOWEDLATENESS IDLETIMEOUT STATETTL " +
+		"MATCH_RECOGNIZE PARTITION MEASURES ONE ROW PER MATCH ALL ROWS AFTER SKIP PAST LAST NEXT TO FIRST PATTERN DEFINE") {
+		c11Keywords[k] = true
+	}
+}
+
+// c11Relayout rewrites a statement token-wise: every keyword outside string literals and backticked
+// identifiers gets the keyword case, every run of blanks outside them becomes sep.
+func c11Relayout(stmt string, kwCase int, sep string) string {
+	var sb strings.Builder
+	isWord := func(c byte) bool {
+		return c == '_' || c >= 'a' && c <= 'z' || c >= 'A' && c <= 'Z' || c >= '0' && c <= '9'
+	}
+	for i := 0; i < len(stmt); {
+		c := stmt[i]
+		switch {
+		case c == '\'' || c == '`':
+			j := i + 1
+			for j < len(stmt) && stmt[j] != c {
+				j++
+			}
+			if j < len(stmt) {
+				j++
+			}
+			sb.WriteString(stmt[i:j])
+			i = j
+		case c == ' ':
+			for i < len(stmt) && stmt[i] == ' ' {
+				i++
+			}
+			sb.WriteString(sep)
+		case isWord(c):
+			j := i
+			for j < len(stmt) && isWord(stmt[j]) {
+				j++
+			}
+			w := stmt[i:j]
+			if c11Keywords[strings.ToUpper(w)] && !(j < len(stmt) && stmt[j] == '(') {
+				switch kwCase {
+				case 0:
+					w = strings.ToUpper(w)
+				case 1:
+					w = strings.ToLower(w)
+				case 2:
+					w = strings.ToUpper(w[:1]) + strings.ToLower(w[1:])
+				}
+			}
+			sb.WriteString(w)
+			i = j
+		default:
+			sb.WriteByte(c)
+			i++
+		}
+	}
+	return sb.String()
+}
 
 // layout renders the statement with a keyword case and a separator.
 func (s c11Stmt) layout(kwCase int, sep string) string {
-	parts := s.parts()
-	for i, p := range parts {
-		if c11Keywords[p] {
-			switch kwCase {
-			case 1:
-				parts[i] = strings.ToLower(p)
-			case 2:
-				parts[i] = p[:1] + strings.ToLower(p[1:])
-			}
-		}
-	}
-	return strings.Join(parts, sep)
+	return c11Relayout(strings.Join(s.parts(), " "), kwCase, sep)
 }
 
 func c11Stmts(tier string) []c11Stmt {
@@ -177,7 +225,11 @@ func c11Stmts(tier string) []c11Stmt {
 	}
 	out = append(out, c11Stmt{Items: []string{"s.a AS a"}, Names: []string{"a"}, Alias: "s"},
 		c11Stmt{Items: []string{"a", "m.loc AS loc"}, Names: []string{"a", "loc"}, Alias: "s", Join: "JOIN meta m ON s.dev = m.dev", Where: "a > 1", WhereLow: "a > 1"},
-		c11Stmt{Items: []string{"a", "m.loc AS loc"}, Names: []string{"a", "loc"}, Join: "LEFT JOIN meta m ON dev = m.dev AND site = m.site", Limit: 2})
+		c11Stmt{Items: []string{"a", "m.loc AS loc"}, Names: []string{"a", "loc"}, Join: "LEFT JOIN meta m ON dev = m.dev AND site = m.site", Limit: 2},
+		// no alias on the stream and/or the table: the word after the source / table is the next keyword
+		c11Stmt{Items: []string{"a", "m.loc AS loc"}, Names: []string{"a", "loc"}, Join: "INNER JOIN meta m ON dev = m.dev"},
+		c11Stmt{Items: []string{"a", "meta.loc AS loc"}, Names: []string{"a", "loc"}, Join: "JOIN meta ON dev = meta.dev", Where: "a > 1", WhereLow: "a > 1"},
+		c11Stmt{Items: []string{"a", "meta.loc AS loc"}, Names: []string{"a", "loc"}, Alias: "s", Join: "LEFT JOIN meta ON s.dev = meta.dev AND s.site = meta.site"})
 	// window queries
 	havs := []wh{{"", ""}, {"c > 1", "c > 1"}, {"s >= 2 AND c < 5", "s >= 2 && c < 5"}}
 	orders := [][][2]string{nil, {{"s", "DESC"}}, {{"k", "ASC"}, {"s", "DESC"}}, {{"c", ""}}, {{"s", "DESC"}, {"k", ""}}, {{"c", ""}, {"s", "DESC"}, {"k", ""}}}
@@ -256,7 +308,11 @@ func c11Fidelity(s c11Stmt, cfg *types.Config, cond string) (field, what string)
 		if strings.HasPrefix(s.Join, "LEFT") {
 			wantType, pairs = "LEFT", 2
 		}
-		if j.Table != "meta" || j.Alias != "m" || !strings.EqualFold(j.JoinType, wantType) || len(j.OnPairs) != pairs || j.OnPairs[0].TableField != "dev" || j.OnPairs[0].StreamField != "dev" {
+		wantAlias := "meta"
+		if strings.Contains(s.Join, " meta m ") {
+			wantAlias = "m"
+		}
+		if j.Table != "meta" || j.Alias != wantAlias || !strings.EqualFold(j.JoinType, wantType) || len(j.OnPairs) != pairs || j.OnPairs[0].TableField != "dev" || j.OnPairs[0].StreamField != "dev" {
 			return "join", fmt.Sprintf("JoinConfigs %+v for %q", cfg.JoinConfigs, s.Join)
 		}
 	}
